@@ -1,13 +1,15 @@
 """C19 - the module content hash is the documented formula over names and bytes only."""
 from vcore import gen_and_replay, record_and_validate, finish, replay_one
+import zipcheck
 
 RULE = ("E1: DirHash - summary = lines (digest, two spaces, name, newline) sorted by name, with an abstract injective content digest of "
         "fixed width; TLC checks on every set of up to 3/4 files over names with spaces, double spaces, case variants, slashes, "
         "non-ASCII, a digest-like prefix and a newline, and two contents: order independence under all permutations, sortedness, "
         "injectivity of the rendering against every one-file change or removal, refusal of newlines. E2: each set is hashed by "
         "dirhash.Hash1 in every listing order and compared with the formula written out independently in the harness over the "
-        "specification's summary order. E3: random sets of 1-8 files recomputed by DirHashTrace. The zip/directory clause (HashZip = "
-        "HashDir of the extraction) is evaluated on every archive of the module-zip checks (C05 replay). Non-trivial = at least two files.")
+        "specification's summary order. E3: random sets of 1-8 files recomputed by DirHashTrace. The zip/directory clause is decided on the archives "
+        "the ModZip generator's file lists produce through the real zip.Create: HashZip of the archive = HashDir of its extraction "
+        "= the formula over the extracted names and bytes. Non-trivial = at least two files.")
 
 
 def run(ctx):
@@ -15,9 +17,13 @@ def run(ctx):
     q = ctx.quick()
     gen_and_replay(ctx, "dirhash", "DirHashGen", "DirHashGen_3" if q else "DirHashGen_4", floor=1000, workers=16, timeout=3000)
     record_and_validate(ctx, "dirhash", "DirHashTrace", "DirHashTrace", 4000 if q else 60000, shards=8)
+    zipcheck.scratch(ctx)
+    gen_and_replay(ctx, "modzip", "ModZipGen", "ModZipGen_files_small2" if q else "ModZipGen_files_full2", floor=1000, workers=16, timeout=3000, xss="256m")
+    ctx.violations = [v for v in ctx.violations if v.get("sig", "").startswith(("set:", "c19:"))]
     ctx.assumptions += ["SHA-256, hexadecimal and base64 renderings are trusted; content digests are an abstract injective function in the specification"]
     return finish(ctx, replay_fn=replay_one, rule=RULE)
 
 
 def replay(ctx, path, verbose=False):
+    zipcheck.scratch(ctx)
     return replay_one(ctx, path, verbose)
